@@ -166,6 +166,9 @@ func DecodeLength(b io.ByteReader) (n, bu int, err error) {
 
 		multiplier += 7
 		bu++
+		if bu > 4 {
+			return 0, bu, ErrMalformedVariableByteInteger // a variable byte integer has at most four bytes
+		}
 	}
 
 	return int(value), bu, nil
